@@ -1,10 +1,12 @@
 package main
 
 import (
+	"context"
 	"encoding/json"
 	"flag"
 	"fmt"
 	"os"
+	"os/exec"
 	"path/filepath"
 	"regexp"
 	"sort"
@@ -226,6 +228,24 @@ func cmdCheck(args []string) int {
 			obls = append(obls, o)
 		}
 	}
+	if *prop == "C17" || *prop == "" {
+		// ghost axioms backed by a Lean proof (tag lean.<File>): the proof is re-checked on every run
+		for _, ax := range specs.Axioms {
+			for _, tg := range ax.Tags {
+				if !strings.HasPrefix(tg, "lean.") {
+					continue
+				}
+				file := filepath.Join(*verifDir, "lemmas", strings.TrimPrefix(tg, "lean.")+".lean")
+				ok, detail := checkLean(file)
+				o := &Obligation{Name: "lemma@" + ax.Name + "#lean", Kind: "lemma", Tags: []string{"C17." + ax.Name}, Src: "axiom " + ax.Name + " is a theorem: " + file + " checks with lean (Mathlib), no sorry",
+					Goal: "true", Static: "proved", StaticDetail: detail}
+				if !ok {
+					o.Static = "failed"
+				}
+				obls = append(obls, o)
+			}
+		}
+	}
 	if *obRe != "" {
 		ore := regexp.MustCompile(*obRe)
 		var f []*Obligation
@@ -303,7 +323,7 @@ func cmdCheck(args []string) int {
 		switch r.Status {
 		case "proved":
 			nProved++
-			bySolver[r.Solver]++
+			bySolver[sliceSizeRe.ReplaceAllString(r.Solver, "")]++
 		default:
 			if kf, ok := matchKnown(r.Obl.Name); ok {
 				nKnown++
@@ -509,8 +529,28 @@ var standingAssumptions = []string{
 	"store key-field invariants (an entry under key k has value.F == k) are checked at every raw write of the code under contract (#storeinv@ obligations) and assumed at every read; writers outside the verified set are assumed to go through the same Set accessors",
 	"decoded store values are well typed: machine-integer fields of unmarshal(bytes) lie in their ranges",
 	"ghost function sumDur: its two defining equations plus prefix-independence and monotonicity (inductive consequences) are assumed as axioms",
+	"ghost axioms of the did contracts: authDids.def and covered.def are definitions; pigeon.cover (pigeonhole) is a theorem proved in /verif/lemmas/Pigeonhole.lean and re-checked with lean on every C17 run; its transcription into the SMT axiom is trusted",
+	"a call-site assertion (at Callee assert ...) is an obligation at the call and an assumption afterwards",
 	"preconditions of entry points (coverage.entry_hypotheses) are hypotheses about the reachable state: each handler re-establishes the clauses it touches, but their conjunction is not discharged as one inductive invariant; only the key-field and id invariants are discharged against genesis",
 }
+
+// checkLean runs lean on a lemma file: accepted when lean exits 0 and the axioms it reports do not include sorryAx.
+func checkLean(file string) (bool, string) {
+	ctx, cancel := context.WithTimeout(context.Background(), 15*time.Minute)
+	defer cancel()
+	out, err := exec.CommandContext(ctx, "lean", file).CombinedOutput()
+	txt := strings.TrimSpace(string(out))
+	if err != nil {
+		return false, "lean failed: " + err.Error() + ": " + truncate(txt, 2000)
+	}
+	if strings.Contains(txt, "sorryAx") || strings.Contains(txt, "error") || !strings.Contains(txt, "depends on axioms") {
+		return false, "lean output not accepted: " + truncate(txt, 2000)
+	}
+	return true, "lean: " + txt
+}
+
+// "cone(103/693)-z3-5.1.0" -> "cone-z3-5.1.0": the evidence counts by kind of attempt and back end
+var sliceSizeRe = regexp.MustCompile(`\(\d+/\d+\)`)
 
 func seedFromEnv() int {
 	var s int
